@@ -38,3 +38,788 @@ Example footer_head_magic_matters :
 Proof.
   exists [88;65;82;49; 0;0;0;0; 80;65;82;49]%N. vm_compute. discriminate.
 Qed.
+
+(* ------------------------------------------------------------------ C02: one column of one batch *)
+
+Arguments Z.add : simpl never.
+Arguments Z.sub : simpl never.
+Arguments Z.of_nat : simpl never.
+Arguments Z.to_nat : simpl never.
+Arguments Nat.sub : simpl never.
+Arguments Nat.min : simpl never.
+Arguments firstn : simpl nomatch.
+Arguments skipn : simpl nomatch.
+
+Section Column.
+Context {A : Type}.
+Variable garbage : A.
+Variable m : io_mode.
+
+Notation chunk := (@chunk A).
+Notation cstate := (@cstate A).
+
+(** a valid stored chunk: consistent pages, no definition level above the column's maximum *)
+Definition chunk_okb (ch : chunk) : Prop :=
+  chunk_ok (ch_max_def ch) (ch_pages ch) /\
+  Forall (fun p : @page A => Forall (fun l => (l <= ch_max_def ch)%N) (pg_levels p)) (ch_pages ch).
+
+Definition ch_rows (ch : chunk) : list (option A) := rows_of garbage (ch_max_def ch) (ch_pages ch).
+Definition ch_total (ch : chunk) : nat := total_rows (ch_pages ch).
+
+(** the column reader [cr] of chunk [ch] stands at row [pos] *)
+Definition CInv (ch : chunk) (cr : cstate) (pos : nat) : Prop :=
+  Inv garbage (ch_max_def ch) (loads_view m (ch_eligible ch)) (ch_pages ch) cr pos.
+
+Lemma Forall_firstn {B} (P : B -> Prop) l n : Forall P l -> Forall P (firstn n l).
+Proof. intro H. apply Forall_forall. intros x Hx. eapply Forall_forall; [exact H|]. eapply In_firstn; exact Hx. Qed.
+Lemma Forall_skipn {B} (P : B -> Prop) l n : Forall P l -> Forall P (skipn n l).
+Proof. intro H. apply Forall_forall. intros x Hx. eapply Forall_forall; [exact H|]. eapply In_skipn; exact Hx. Qed.
+
+Lemma flat_levels_le ch : chunk_okb ch -> Forall (fun l => (l <= ch_max_def ch)%N) (flatL (ch_max_def ch) (ch_pages ch)).
+Proof.
+  intros [_ H]. unfold flatL. induction H as [|p ps Hp _ IH]; cbn [flat_map]; [constructor|].
+  apply Forall_app. split; [|exact IH].
+  unfold dec_levels. destruct (N.eqb (ch_max_def ch) 0) eqn:E; [|exact Hp].
+  apply Forall_forall. intros x Hx. apply repeat_spec in Hx. subst x. lia.
+Qed.
+
+Lemma seg_levels_le ch pos c : chunk_okb ch -> Forall (fun l => (l <= ch_max_def ch)%N) (segL (ch_max_def ch) (ch_pages ch) pos c).
+Proof. intro H. unfold segL. apply Forall_firstn, Forall_skipn, flat_levels_le, H. Qed.
+
+Lemma bits_is_null md lv vs :
+  Forall (fun l => (l <= md)%N) lv -> map (fun l => N.ltb l md) lv = map is_null (rebuild garbage md lv vs).
+Proof.
+  intro H. revert vs. induction H as [|l lv Hl _ IH]; intro vs; cbn [map rebuild]; [reflexivity|].
+  destruct (N.eqb l md) eqn:E.
+  - apply N.eqb_eq in E. subst l. rewrite N.ltb_irrefl.
+    destruct vs as [|v vs]; cbn [map is_null]; f_equal; apply IH.
+  - cbn [map is_null]. f_equal; [|apply IH]. apply N.eqb_neq in E. apply N.ltb_lt. lia.
+Qed.
+
+Lemma false_bits_count md lv :
+  Forall (fun l => (l <= md)%N) lv -> length (filter negb (map (fun l => N.ltb l md) lv)) = count_present md lv.
+Proof.
+  induction 1 as [|l lv Hl _ IH]; cbn [map filter count_present length]; [reflexivity|].
+  destruct (N.eqb l md) eqn:E.
+  - apply N.eqb_eq in E. subst l. rewrite N.ltb_irrefl. cbn [negb length]. rewrite IH. reflexivity.
+  - apply N.eqb_neq in E. assert (Hlt : N.ltb l md = true) by (apply N.ltb_lt; lia). rewrite Hlt. cbn [negb]. rewrite IH. reflexivity.
+Qed.
+
+Lemma required_all_present ch pos c :
+  ch_max_def ch = 0%N -> (pos + c <= ch_total ch)%nat ->
+  count_present (ch_max_def ch) (segL (ch_max_def ch) (ch_pages ch) pos c) = c /\
+  count_present (ch_max_def ch) (firstn pos (flatL (ch_max_def ch) (ch_pages ch))) = pos.
+Proof.
+  intros E H. unfold ch_total in H.
+  assert (Hall : forall x, In x (flatL (ch_max_def ch) (ch_pages ch)) -> x = ch_max_def ch).
+  { intros x Hx. unfold flatL in Hx. apply in_flat_map in Hx. destruct Hx as (p & _ & Hp).
+    eapply dec_levels_required; [exact E|exact Hp]. }
+  split.
+  - rewrite count_all_present.
+    + apply segL_length. exact H.
+    + intros x Hx. apply Hall. unfold segL in Hx. eapply In_skipn, In_firstn. exact Hx.
+  - rewrite count_all_present.
+    + rewrite firstn_length, flatL_length. lia.
+    + intros x Hx. apply Hall. eapply In_firstn. exact Hx.
+Qed.
+
+(** the block of rows [pos, pos+rows) of a chunk, as a batch column exposes it *)
+Definition ch_block (ch : chunk) (pos rows : nat) : batch_col A := col_block (firstn rows (skipn pos (ch_rows ch))).
+
+Lemma ch_block_eq ch pos rows :
+  chunk_okb ch -> (pos + rows <= ch_total ch)%nat ->
+  ch_block ch pos rows =
+  {| bc_num_values := Z.of_nat rows;
+     bc_bitmap := map (fun l => N.ltb l (ch_max_def ch)) (segL (ch_max_def ch) (ch_pages ch) pos rows);
+     bc_packed := segV (ch_max_def ch) (ch_pages ch) pos rows |}.
+Proof.
+  intros Hok Hle. destruct Hok as [Hc Hl]. unfold ch_block, col_block, ch_rows.
+  f_equal.
+  - rewrite firstn_length, skipn_length, rows_of_length. unfold ch_total in Hle. f_equal. lia.
+  - rewrite <- (seg_rows garbage _ _ Hc pos rows []). symmetry. apply bits_is_null.
+    apply seg_levels_le. split; assumption.
+  - apply somes_seg. exact Hc.
+Qed.
+
+(** the copying branch *)
+Lemma read_column_copy ch cr pos rows :
+  chunk_okb ch -> CInv ch cr pos -> (0 < rows)%nat -> (pos + rows <= ch_total ch)%nat -> Z.of_nat rows < 2^31 ->
+  exists cr2 r,
+    read_batch garbage true cr (Z.of_nat rows) (negb (N.eqb (ch_max_def ch) 0)) = Ok (cr2, r) /\
+    CInv ch cr2 (pos + rows) /\ br_ret r = Z.of_nat rows /\
+    observe_col {| cd_num := br_ret r;
+                   cd_bits := if N.eqb (ch_max_def ch) 0 then repeat false (Z.to_nat (br_ret r))
+                              else map (fun l => N.ltb l (ch_max_def ch)) (firstn (Z.to_nat (br_ret r)) (br_levels r));
+                   cd_data := br_vals r; cd_max_def := ch_max_def ch |} = ch_block ch pos rows.
+Proof.
+  intros Hok HI Hr Hle Hsmall. pose proof Hok as [Hc Hl]. unfold CInv in *.
+  destruct (read_batch_spec garbage _ _ _ Hc cr pos (Z.of_nat rows) (negb (N.eqb (ch_max_def ch) 0)) HI ltac:(lia))
+    as (cr2 & Er & HI2). cbn zeta in Er, HI2. rewrite Nat2Z.id in Er, HI2.
+  unfold ch_total in Hle.
+  replace (Nat.min rows (total_rows (ch_pages ch) - pos)) with rows in * by lia.
+  eexists _, _. split; [exact Er|]. split; [exact HI2|]. cbn [br_ret br_levels br_vals]. split; [reflexivity|].
+  rewrite (ch_block_eq ch pos rows Hok Hle). unfold observe_col. cbn [cd_num cd_bits cd_data cd_max_def]. rewrite Nat2Z.id.
+  set (sl := segL (ch_max_def ch) (ch_pages ch) pos rows). set (sv := segV (ch_max_def ch) (ch_pages ch) pos rows).
+  assert (Hsl : length sl = rows) by (apply segL_length; exact Hle).
+  assert (Hsv : length sv = count_present (ch_max_def ch) sl) by (apply segV_length; exact Hc).
+  assert (Hle_l : Forall (fun l => (l <= ch_max_def ch)%N) sl) by (apply seg_levels_le; exact Hok).
+  destruct (N.eqb (ch_max_def ch) 0) eqn:E0.
+  - apply N.eqb_eq in E0. cbn [negb].
+    destruct (required_all_present ch pos rows E0 Hle) as [Hcnt _]. fold sl in Hcnt.
+    f_equal.
+    + rewrite E0. rewrite <- Hsl. clear. induction sl as [|x sl IH]; [reflexivity|]. cbn [length repeat map].
+      f_equal; [|exact IH]. symmetry. apply N.ltb_ge. lia.
+    + unfold vpad. rewrite firstn_app_l by lia. rewrite <- Hcnt, <- Hsv. apply firstn_all.
+  - cbn [negb]. unfold lpad.
+    assert (Hf : firstn rows (sl ++ repeat garbage_level (rows - length sl)) = sl).
+    { rewrite firstn_app_l by lia. rewrite <- Hsl. apply firstn_all. }
+    rewrite Hf. f_equal.
+    rewrite false_bits_count by exact Hle_l. unfold vpad. rewrite firstn_app_l by lia. rewrite <- Hsv. apply firstn_all.
+Qed.
+
+(** the zero-copy branch (repaired): a view on exactly the rows of the batch *)
+Lemma read_column_view ch cr pos rows :
+  chunk_okb ch -> CInv ch cr pos -> ch_max_def ch = 0%N -> cs_loaded cr = true ->
+  (rows <= cs_pnum cr - cs_pread cr)%nat -> (pos + rows <= ch_total ch)%nat ->
+  exists view,
+    copy_out (cs_dvals cr) (cs_pread cr) rows = Ok view /\
+    CInv ch (set_zc_consumed cr rows) (pos + rows) /\
+    observe_col {| cd_num := Z.of_nat rows; cd_bits := repeat false rows; cd_data := view; cd_max_def := ch_max_def ch |}
+      = ch_block ch pos rows.
+Proof.
+  intros Hok HI E0 El Hav Hle. pose proof Hok as [Hc Hl]. unfold CInv in *.
+  destruct HI as (Hpg & Hmd & Hzc & Hle0 & Hrem & Hld). rewrite El in Hld.
+  destruct Hld as (before & p & after & E & Hcur & Hpn & Hpr & Hpos & Hdl & Hdv & Hpd).
+  destruct (chunk_split_ok _ _ Hc _ _ _ E) as (Hb & Hp & _).
+  (* a REQUIRED page holds one value per row *)
+  assert (Hvals : length (pg_vals p) = length (pg_levels p)).
+  { unfold page_ok in Hp. rewrite Hp. rewrite count_all_present.
+    - apply dec_levels_length.
+    - intros x Hx. eapply dec_levels_required; [exact E0|exact Hx]. }
+  assert (Hrd : (cs_pread cr + rows <= length (pg_vals p))%nat) by lia.
+  rewrite copy_out_ok by (rewrite Hdv; unfold dec_vals; rewrite app_length; lia).
+  eexists. split; [reflexivity|]. split.
+  - unfold Inv, set_zc_consumed.
+    cbn [cs_pages cs_max_def cs_zc cs_remaining cs_loaded cs_cur cs_pnum cs_pread cs_pdense cs_dvals cs_dlevels].
+    rewrite El. unfold ch_total in Hle. repeat split; try assumption; try lia.
+    exists before, p, after. repeat split; try assumption; try lia; try (intro Hn; congruence).
+  - rewrite (ch_block_eq ch pos rows Hok Hle). unfold observe_col. cbn [cd_num cd_bits cd_data cd_max_def].
+    rewrite Nat2Z.id, E0. cbn [N.eqb].
+    destruct (required_all_present ch pos rows E0 Hle) as [Hcnt Hcp]. rewrite E0 in Hcnt, Hcp.
+    rewrite Hdv. rewrite (window_vals garbage _ before p after _ _ E Hrd).
+    assert (Hoff : (length (flatV before) + cs_pread cr)%nat = pos).
+    { pose proof (count_before _ _ Hc before p after (cs_pread cr) E Hpr) as Hcb.
+      rewrite <- Hpos in Hcb. rewrite E0 in Hcb. rewrite Hcp in Hcb.
+      rewrite count_all_present in Hcb.
+      - rewrite firstn_length, dec_levels_length in Hcb. lia.
+      - intros x Hx. rewrite <- E0. eapply dec_levels_required; [exact E0|]. rewrite E0. eapply In_firstn. exact Hx. }
+    rewrite Hoff.
+    assert (Hsv : segV 0%N (ch_pages ch) pos rows = firstn rows (skipn pos (flatV (ch_pages ch)))).
+    { unfold segV. rewrite Hcnt, Hcp. reflexivity. }
+    rewrite Hsv. f_equal.
+    + assert (Hsl : length (segL 0%N (ch_pages ch) pos rows) = rows) by (apply segL_length; exact Hle).
+      rewrite <- Hsl at 1. generalize (segL 0%N (ch_pages ch) pos rows). clear.
+      induction l as [|x l IH]; [reflexivity|]. cbn [length repeat map]. f_equal; [|exact IH].
+      symmetry. apply N.ltb_ge. lia.
+    + apply firstn_all2. rewrite firstn_length. lia.
+Qed.
+
+(** one iteration of the main column loop: every column delivers exactly the [rows] rows of the batch *)
+Lemma read_column_spec ch cr pos rows :
+  chunk_okb ch -> CInv ch cr pos -> (0 < rows)%nat -> (pos + rows <= ch_total ch)%nat -> Z.of_nat rows < 2^31 ->
+  exists cr' d,
+    read_column garbage true true m cr (Z.of_nat rows) = Ok (cr', Some d) /\
+    CInv ch cr' (pos + rows) /\ observe_col d = ch_block ch pos rows /\ cd_num d = Z.of_nat rows.
+Proof.
+  intros Hok HI Hr Hle Hsmall. pose proof Hok as [Hc Hl].
+  assert (Hmd : cs_max_def cr = ch_max_def ch) by (destruct HI as (_ & H & _); exact H).
+  unfold read_column. rewrite Hmd.
+  (* the peek *)
+  assert (Hpeek : exists cr1,
+     (if batch_peeks m && N.eqb (ch_max_def ch) 0 && negb (cs_loaded cr)
+      then match read_batch garbage true cr 0 false with
+           | Ok (cr1, _) => Ok cr1 | Err c => Err c | Fault f => Fault f end
+      else Ok cr) = Ok cr1 /\ CInv ch cr1 pos).
+  { destruct (batch_peeks m && N.eqb (ch_max_def ch) 0 && negb (cs_loaded cr)).
+    - destruct (read_batch_peek garbage _ _ _ Hc cr pos false HI) as (cr1 & Ep & HI1). rewrite Ep. exists cr1. split; [reflexivity|exact HI1].
+    - exists cr. split; [reflexivity|exact HI]. }
+  destruct Hpeek as (cr1 & Ep & HI1). rewrite Ep.
+  destruct (cs_loaded cr1 && cs_view cr1 && (Z.of_nat (cs_pnum cr1 - cs_pread cr1) >=? Z.of_nat rows) && N.eqb (ch_max_def ch) 0) eqn:Ezc.
+  - (* zero-copy *)
+    apply andb_prop in Ezc. destruct Ezc as [Ezc E0]. apply andb_prop in Ezc. destruct Ezc as [Ezc Eav].
+    apply andb_prop in Ezc. destruct Ezc as [El _]. apply N.eqb_eq in E0.
+    rewrite Nat2Z.id.
+    destruct (read_column_view ch cr1 pos rows Hok HI1 E0 El ltac:(lia) Hle) as (view & Ev & HI2 & Hobs).
+    rewrite Ev. eexists _, _. split; [reflexivity|]. split; [exact HI2|]. split; [exact Hobs|reflexivity].
+  - destruct (read_column_copy ch cr1 pos rows Hok HI1 Hr Hle Hsmall) as (cr2 & r & Er & HI2 & Hret & Hobs).
+    rewrite Er. rewrite Hret. destruct (Z.of_nat rows <? 0) eqn:En; [lia|].
+    rewrite Hret in Hobs.
+    eexists _, _. split; [reflexivity|]. split; [exact HI2|]. split; [exact Hobs|reflexivity].
+Qed.
+
+End Column.
+
+(* ------------------------------------------------------------------ C02: all columns of one batch *)
+
+Section Batch.
+Context {A : Type}.
+Variable garbage : A.
+Variable m : io_mode.
+
+Notation chunk := (@chunk A).
+Notation cstate := (@cstate A).
+
+(** the readers [rs] of the projected chunks [chs] all stand at row [pos] *)
+Definition RInv (chs : list chunk) (rs : list cstate) (pos : nat) : Prop :=
+  Forall2 (fun ch cr => CInv garbage m ch cr pos) chs rs.
+
+Lemma prefetch_spec chs : forall rs pos,
+  Forall chunk_okb chs -> RInv chs rs pos ->
+  exists rs', prefetch garbage true rs = Ok rs' /\ RInv chs rs' pos.
+Proof.
+  induction chs as [|ch chs IH]; intros rs pos Hok HR; inversion HR as [|? cr ? rs0 Hcr Hrs]; subst.
+  - exists []. split; [reflexivity|constructor].
+  - inversion Hok as [|? ? Hch Hchs]; subst.
+    destruct (IH rs0 pos Hchs Hrs) as (rs' & Ep & HR').
+    cbn [prefetch]. rewrite Ep.
+    destruct (negb (cs_loaded cr) && (cs_remaining cr >? 0)).
+    + destruct Hch as [Hc _].
+      destruct (read_batch_peek garbage _ _ _ Hc cr pos false Hcr) as (cr1 & Er & HI1). rewrite Er.
+      exists (cr1 :: rs'). split; [reflexivity|]. constructor; assumption.
+    + exists (cr :: rs'). split; [reflexivity|]. constructor; assumption.
+Qed.
+
+Lemma all_some_map {B} (l : list B) : all_some (map Some l) = Some l.
+Proof. induction l as [|x l IH]; [reflexivity|]. cbn [map all_some]. rewrite IH. reflexivity. Qed.
+
+Lemma read_columns_spec chs : forall rs pos rows,
+  Forall chunk_okb chs -> Forall (fun ch => (pos + rows <= ch_total ch)%nat) chs ->
+  RInv chs rs pos -> (0 < rows)%nat -> Z.of_nat rows < 2^31 ->
+  exists rs' ds,
+    read_columns garbage true true m rs (Z.of_nat rows) = Ok (rs', map Some ds) /\
+    RInv chs rs' (pos + rows) /\
+    map observe_col ds = map (fun ch => ch_block garbage ch pos rows) chs /\
+    Forall (fun d => cd_num d = Z.of_nat rows) ds.
+Proof.
+  induction chs as [|ch chs IH]; intros rs pos rows Hok Hle HR Hr Hs; inversion HR as [|? cr ? rs0 Hcr Hrs]; subst.
+  - exists [], []. repeat split; constructor.
+  - inversion Hok as [|? ? Hch Hchs]; subst. inversion Hle as [|? ? Hl Hls]; subst.
+    destruct (read_column_spec garbage m ch cr pos rows Hch Hcr Hr Hl Hs) as (cr' & d & Ec & HI' & Hobs & Hnum).
+    destruct (IH rs0 pos rows Hchs Hls Hrs Hr Hs) as (rs' & ds & Ecs & HR' & Hmap & Hnums).
+    cbn [read_columns]. rewrite Ec, Ecs.
+    exists (cr' :: rs'), (d :: ds). split; [reflexivity|]. split; [constructor; assumption|].
+    split; [cbn [map]; rewrite Hobs, Hmap; reflexivity|constructor; assumption].
+Qed.
+
+(** the chunks a projection selects from a row group *)
+Definition sel (rg : @mrowgroup A) (proj : list nat) : list chunk :=
+  flat_map (fun i => match nth_error rg i with Some ch => [ch] | None => [] end) proj.
+
+Lemma open_readers_spec rg proj :
+  Forall (fun i => (i < length rg)%nat) proj ->
+  exists rs, open_readers m rg proj = Ok rs /\ RInv (sel rg proj) rs O /\ length (sel rg proj) = length proj.
+Proof.
+  induction proj as [|i proj IH]; intro H; [exists []; repeat split; constructor|].
+  inversion H as [|? ? Hi Hp]; subst.
+  destruct (IH Hp) as (rs & Eo & HR & Hlen).
+  cbn [open_readers sel flat_map]. destruct (nth_error rg i) as [ch|] eqn:En.
+  - fold (sel rg proj). rewrite Eo. eexists. split; [reflexivity|]. split.
+    + cbn [app]. constructor; [apply Inv_open|exact HR].
+    + cbn [app length]. rewrite Hlen. reflexivity.
+  - apply nth_error_None in En. lia.
+Qed.
+
+(** a valid row group for a projection: valid chunks, indices in range, all chunks as long as the first *)
+Definition rg_ok (proj : list nat) (rg : @mrowgroup A) : Prop :=
+  Forall chunk_okb rg /\ Forall (fun i => (i < length rg)%nat) proj /\
+  Forall (fun ch => ch_total ch = rg_rows rg) rg.
+
+Lemma sel_in rg proj ch : In ch (sel rg proj) -> In ch rg.
+Proof.
+  unfold sel. intro H. apply in_flat_map in H. destruct H as (i & _ & Hi).
+  destruct (nth_error rg i) as [c|] eqn:En; [|destruct Hi].
+  destruct Hi as [<-|[]]. eapply nth_error_In. exact En.
+Qed.
+
+Lemma sel_ok proj rg :
+  rg_ok proj rg -> Forall chunk_okb (sel rg proj) /\ Forall (fun ch => ch_total ch = rg_rows rg) (sel rg proj).
+Proof.
+  intros (Hok & _ & Hn). split; apply Forall_forall; intros ch Hch; apply sel_in in Hch.
+  - eapply Forall_forall in Hok; eassumption.
+  - eapply (proj1 (Forall_forall _ _) Hn); exact Hch.
+Qed.
+
+(** the second half of carquet_batch_reader_next: the block of min(batch_size, rows left) rows at the common
+    position (an empty block for an empty row group) *)
+Lemma produce_spec chs rs pos n g bs :
+  chs <> [] -> Forall chunk_okb chs -> Forall (fun ch => ch_total ch = n) chs ->
+  RInv chs rs pos -> (pos <= n)%nat -> 0 < bs < 2^31 ->
+  let c := Nat.min (Z.to_nat bs) (n - pos) in
+  exists rs',
+    produce garbage true true m bs {| bs_rg := g; bs_readers := rs |} =
+    Ok ({| bs_rg := g; bs_readers := rs' |}, NBatch (block (map (ch_rows garbage) chs) pos c)) /\
+    RInv chs rs' (pos + c).
+Proof.
+  intros Hne Hok Hn HR Hpos Hbs c.
+  destruct chs as [|ch0 chs0]; [congruence|].
+  inversion HR as [|? cr0 ? rs0 Hcr0 Hrs0]; subst.
+  unfold produce. cbn [bs_readers bs_rg].
+  assert (Hrem : remaining cr0 = Z.of_nat (n - pos)).
+  { destruct Hcr0 as (_ & _ & _ & _ & Hr & _). unfold remaining. rewrite Hr.
+    inversion Hn as [|? ? H0 _]; subst. unfold ch_total. reflexivity. }
+  rewrite Hrem.
+  assert (Erows : (if Z.of_nat (n - pos) >? bs then bs else Z.of_nat (n - pos)) = Z.of_nat c).
+  { subst c. destruct (Z.of_nat (n - pos) >? bs) eqn:E; lia. }
+  rewrite Erows.
+  destruct (Z.of_nat c =? 0) eqn:Ec0.
+  - (* empty row group *)
+    assert (c = O) by lia. exists (cr0 :: rs0). rewrite H, Nat.add_0_r. split; [|exact HR].
+    f_equal. f_equal. f_equal. unfold block. f_equal.
+    rewrite map_map. clear -HR. revert HR. generalize (cr0 :: rs0). generalize (ch0 :: chs0).
+    induction l as [|x l IH]; intros l0 HR; inversion HR; subst; [reflexivity|]. cbn [map]. f_equal. apply IH. assumption.
+  - assert (Hc : (0 < c)%nat) by lia.
+    destruct (prefetch_spec (ch0 :: chs0) (cr0 :: rs0) pos Hok HR) as (rs1 & Ep & HR1). rewrite Ep.
+    assert (Hle : Forall (fun ch => (pos + c <= ch_total ch)%nat) (ch0 :: chs0)).
+    { apply Forall_forall. intros ch Hch. eapply Forall_forall in Hn; [|exact Hch]. cbn beta in Hn. unfold ch_total in *. subst c. lia. }
+    destruct (read_columns_spec (ch0 :: chs0) rs1 pos c Hok Hle HR1 Hc ltac:(subst c; lia)) as (rs2 & ds & Er & HR2 & Hmap & Hnums).
+    rewrite Er, all_some_map.
+    exists rs2. split; [|exact HR2].
+    f_equal. f_equal. f_equal. unfold block. f_equal.
+    + destruct ds as [|d ds']; [discriminate Hmap|]. inversion Hnums; subst. assumption.
+    + rewrite Hmap, map_map. reflexivity.
+Qed.
+
+End Batch.
+
+(* ------------------------------------------------------------------ C02: the whole file through the batch reader *)
+
+Lemma blocks_from_fuel {A} (cols : list (list (option A))) n bs : (0 < bs)%nat ->
+  forall f1 f2 pos, (n - pos <= f1)%nat -> (n - pos <= f2)%nat ->
+  blocks_from f1 cols n bs pos = blocks_from f2 cols n bs pos.
+Proof.
+  intro Hbs. induction f1 as [|f1 IH]; intros f2 pos H1 H2.
+  - destruct f2 as [|f2]; [reflexivity|]. cbn [blocks_from]. destruct (n <=? pos)%nat eqn:E; [reflexivity|lia].
+  - destruct f2 as [|f2].
+    + cbn [blocks_from]. destruct (n <=? pos)%nat eqn:E; [reflexivity|lia].
+    + cbn [blocks_from]. destruct (n <=? pos)%nat eqn:E; [reflexivity|].
+      f_equal. apply IH; lia.
+Qed.
+
+Section Loop.
+Context {A : Type}.
+Variable garbage : A.
+Variable m : io_mode.
+Variable f : @mfile A.
+Variable proj : list nat.
+Variable bs : Z.
+Hypothesis Hproj : proj <> [].
+Hypothesis Hf : Forall (rg_ok proj) f.
+Hypothesis Hbs : 0 < bs < 2^31.
+
+Notation bsn := (Z.to_nat bs).
+Notation bstate := (@bstate A).
+
+Definition cols_of (rg : @mrowgroup A) : list (list (option A)) := map (ch_rows garbage) (sel rg proj).
+
+(** the batch reader stands inside row group number [g], all projected readers at row [pos] *)
+Definition InRg (st : bstate) (g : nat) (rg : @mrowgroup A) (pos : nat) : Prop :=
+  bs_rg st = Z.of_nat g /\ RInv garbage m (sel rg proj) (bs_readers st) pos /\
+  nth_error f g = Some rg /\ (pos <= rg_rows rg)%nat.
+
+(** the next call has to move to row group number [g] (the one before is used up, or none was opened yet) *)
+Definition Exh (st : bstate) (g : nat) : Prop :=
+  (g = O /\ bs_rg st = -1) \/ (exists g' rg, g = S g' /\ InRg st g' rg (rg_rows rg)).
+
+Lemma rg_ok_at g (rg : @mrowgroup A) : nth_error f g = Some rg -> rg_ok proj rg.
+Proof. intro H. eapply Forall_forall; [exact Hf|]. eapply nth_error_In. exact H. Qed.
+
+Lemma sel_nonempty (rg : @mrowgroup A) : rg_ok proj rg -> sel rg proj <> [].
+Proof.
+  intros (_ & Hi & _) E.
+  destruct (open_readers_spec garbage m rg proj Hi) as (_ & _ & _ & Hlen). rewrite E in Hlen. cbn [length] in Hlen.
+  destruct proj; [congruence|discriminate].
+Qed.
+
+Lemma remaining_first st g rg pos :
+  InRg st g rg pos ->
+  exists cr0 rs0, bs_readers st = cr0 :: rs0 /\ remaining cr0 = Z.of_nat (rg_rows rg - pos).
+Proof.
+  intros (_ & HR & Hn & _). pose proof (rg_ok_at g rg Hn) as Hok.
+  pose proof (sel_nonempty rg Hok) as Hne. destruct (sel_ok proj rg Hok) as [_ Htot].
+  destruct (sel rg proj) as [|ch0 chs0] eqn:Es; [congruence|].
+  inversion HR as [|? cr0 ? rs0 Hcr0 _ E1 E2]; subst. exists cr0, rs0. split; [reflexivity|].
+  destruct Hcr0 as (_ & _ & _ & _ & Hr & _). unfold remaining. rewrite Hr.
+  inversion Htot as [|? ? H0 _]; subst. unfold ch_total in H0. rewrite H0. reflexivity.
+Qed.
+
+Lemma advance_in_rg st g rg pos :
+  InRg st g rg pos -> (pos < rg_rows rg)%nat -> advance m f proj st = Ok (st, true).
+Proof.
+  intros HI Hlt. destruct (remaining_first st g rg pos HI) as (cr0 & rs0 & Er & Hrem).
+  destruct HI as (Hg & _). unfold advance. rewrite Hg, Er. unfold has_next. unfold remaining in Hrem. rewrite Hrem.
+  destruct (Z.of_nat g <? 0) eqn:E1; [lia|]. destruct (Z.of_nat (rg_rows rg - pos) >? 0) eqn:E2; [|lia].
+  reflexivity.
+Qed.
+
+Lemma advance_exh st g :
+  Exh st g ->
+  match nth_error f g with
+  | None => exists st1, advance m f proj st = Ok (st1, false)
+  | Some rg => exists rs, advance m f proj st = Ok ({| bs_rg := Z.of_nat g; bs_readers := rs |}, true) /\
+                          RInv garbage m (sel rg proj) rs O
+  end.
+Proof.
+  intro HE.
+  assert (Hneed : ((bs_rg st <? 0) || match bs_readers st with cr0 :: _ => negb (has_next cr0) | [] => true end) = true
+                  /\ bs_rg st + 1 = Z.of_nat g).
+  { destruct HE as [[-> Hrg]|(g' & rg' & -> & HI)].
+    - rewrite Hrg. split; reflexivity.
+    - destruct (remaining_first st g' rg' _ HI) as (cr0 & rs0 & Er & Hrem). destruct HI as (Hg & _).
+      rewrite Hg, Er. unfold has_next. unfold remaining in Hrem. rewrite Hrem, Nat.sub_diag. split; [|lia].
+      destruct (Z.of_nat g' <? 0); reflexivity. }
+  destruct Hneed as [Hneed Hg]. unfold advance. rewrite Hneed, Hg, Nat2Z.id.
+  destruct (nth_error f g) as [rg|] eqn:En.
+  - assert (Hlt : (g < length f)%nat) by (apply nth_error_Some; congruence).
+    destruct (Z.of_nat g >=? Z.of_nat (length f)) eqn:E; [lia|].
+    destruct (rg_ok_at g rg En) as (_ & Hi & _).
+    destruct (open_readers_spec garbage m rg proj Hi) as (rs & Eo & HR & _). rewrite Eo.
+    exists rs. split; [reflexivity|exact HR].
+  - apply nth_error_None in En. destruct (Z.of_nat g >=? Z.of_nat (length f)) eqn:E; [|lia].
+    eexists. reflexivity.
+Qed.
+
+(** calls still needed: at most one per row (one for an empty row group) and the final END_OF_DATA *)
+Fixpoint cost_rest (rest : list (@mrowgroup A)) : nat :=
+  match rest with [] => 1 | rg :: t => S (rg_rows rg) + cost_rest t end.
+
+(** inside a row group: the remaining blocks of this row group, then whatever follows *)
+Lemma loop_in_rg tail ctail g rg :
+  (forall fuel' st', (ctail <= fuel')%nat -> Exh st' (S g) ->
+     batches_loop garbage true true fuel' m f proj bs st' = Ok (tail, E_END_OF_DATA)) ->
+  forall k st pos fuel,
+  InRg st g rg pos -> k = (rg_rows rg - pos)%nat -> (k + ctail <= fuel)%nat ->
+  batches_loop garbage true true fuel m f proj bs st =
+  Ok (blocks_from k (cols_of rg) (rg_rows rg) bsn pos ++ tail, E_END_OF_DATA).
+Proof.
+  intro Hcont. induction k as [k IH] using lt_wf_ind. intros st pos fuel HI Hk Hfuel.
+  destruct k as [|k'].
+  - (* this row group is used up *)
+    cbn [blocks_from app]. apply Hcont; [lia|]. right. exists g, rg. split; [reflexivity|].
+    destruct HI as (H1 & H2 & H3 & H4). assert (pos = rg_rows rg) by lia. subst pos. repeat split; assumption.
+  - assert (Hlt : (pos < rg_rows rg)%nat) by lia.
+    destruct fuel as [|fuel]; [lia|]. cbn [batches_loop]. unfold batch_next.
+    rewrite (advance_in_rg st g rg pos HI Hlt).
+    pose proof HI as (Hg & HR & Hn & Hle).
+    pose proof (rg_ok_at g rg Hn) as Hok. destruct (sel_ok proj rg Hok) as [Hsok Hstot].
+    destruct st as [strg strs]. cbn [bs_rg bs_readers] in *.
+    destruct (produce_spec garbage m (sel rg proj) strs pos (rg_rows rg) strg bs (sel_nonempty rg Hok) Hsok Hstot HR Hle Hbs)
+      as (rs' & Ep & HR').
+    cbn zeta in Ep. rewrite Ep.
+    set (c := Nat.min bsn (rg_rows rg - pos)) in *.
+    assert (Hc : (0 < c)%nat) by (subst c; lia).
+    rewrite (IH (rg_rows rg - (pos + c))%nat ltac:(lia) _ (pos + c)%nat fuel); try lia.
+    + cbn [blocks_from]. destruct (rg_rows rg <=? pos)%nat eqn:E; [lia|]. fold c. cbn [app]. f_equal. f_equal. f_equal. f_equal.
+      unfold cols_of. apply blocks_from_fuel; lia.
+    + repeat split; cbn [bs_rg bs_readers]; try assumption. subst c. lia.
+Qed.
+
+(** from the boundary before row group number [length done]: the blocks of all remaining row groups *)
+Lemma loop_exh rest : forall done st fuel,
+  f = done ++ rest -> Exh st (length done) -> (cost_rest rest <= fuel)%nat ->
+  batches_loop garbage true true fuel m f proj bs st =
+  Ok (concat (map (fun rg => rowgroup_blocks bsn (cols_of rg)) rest), E_END_OF_DATA).
+Proof.
+  induction rest as [|rg rest IH]; intros done st fuel Ef HE Hfuel.
+  - cbn [cost_rest] in Hfuel. destruct fuel as [|fuel]; [lia|]. cbn [batches_loop map concat]. unfold batch_next.
+    pose proof (advance_exh st (length done) HE) as Ha.
+    assert (En : nth_error f (length done) = None) by (apply nth_error_None; rewrite Ef, app_nil_r; lia).
+    rewrite En in Ha. destruct Ha as (st1 & Ea). rewrite Ea. reflexivity.
+  - cbn [cost_rest] in Hfuel. destruct fuel as [|fuel]; [lia|]. cbn [batches_loop map concat]. unfold batch_next.
+    pose proof (advance_exh st (length done) HE) as Ha.
+    assert (En : nth_error f (length done) = Some rg) by (rewrite Ef; apply nth_error_middle).
+    rewrite En in Ha. destruct Ha as (rs & Ea & HR0). rewrite Ea.
+    pose proof (rg_ok_at _ rg En) as Hok. destruct (sel_ok proj rg Hok) as [Hsok Hstot].
+    destruct (produce_spec garbage m (sel rg proj) rs O (rg_rows rg) (Z.of_nat (length done)) bs
+                (sel_nonempty rg Hok) Hsok Hstot HR0 ltac:(lia) Hbs) as (rs' & Ep & HR').
+    cbn zeta in Ep. rewrite Ep. rewrite Nat.sub_0_r in *. cbn [Nat.add] in HR'.
+    set (c := Nat.min bsn (rg_rows rg)) in *.
+    (* the rest of this row group, then the following ones by the induction hypothesis *)
+    assert (Hcont : forall fuel' st', (cost_rest rest <= fuel')%nat -> Exh st' (S (length done)) ->
+              batches_loop garbage true true fuel' m f proj bs st' =
+              Ok (concat (map (fun rg => rowgroup_blocks bsn (cols_of rg)) rest), E_END_OF_DATA)).
+    { intros fuel' st' Hf' HE'. apply (IH (done ++ [rg])).
+      - rewrite <- app_assoc. exact Ef.
+      - rewrite app_length. cbn [length]. rewrite Nat.add_1_r. exact HE'.
+      - exact Hf'. }
+    rewrite (loop_in_rg _ _ (length done) rg Hcont (rg_rows rg - c)%nat _ c fuel); try lia.
+    + (* rowgroup_blocks of this row group = first block :: remaining blocks *)
+      assert (Hrb : rowgroup_blocks bsn (cols_of rg) =
+                    block (map (ch_rows garbage) (sel rg proj)) 0 c ::
+                    blocks_from (rg_rows rg - c) (cols_of rg) (rg_rows rg) bsn c).
+      { unfold rowgroup_blocks, cols_of.
+        destruct (sel rg proj) as [|ch0 chs0] eqn:Es; [exfalso; apply (sel_nonempty rg Hok); exact Es|].
+        cbn [map].
+        assert (Hlen : length (ch_rows garbage ch0) = rg_rows rg).
+        { unfold ch_rows. rewrite rows_of_length. inversion Hstot as [|? ? H0 _]; subst. exact H0. }
+        rewrite !Hlen.
+        destruct (rg_rows rg =? 0)%nat eqn:E0.
+        - apply Nat.eqb_eq in E0. subst c. rewrite E0. replace (Nat.min bsn 0) with O by lia.
+          cbn [Nat.sub blocks_from]. reflexivity.
+        - apply Nat.eqb_neq in E0. destruct (rg_rows rg) as [|n'] eqn:En'; [congruence|].
+          cbn [blocks_from]. destruct (S n' <=? 0)%nat eqn:E1; [lia|]. rewrite Nat.sub_0_r. fold c. cbn [Nat.add].
+          f_equal. apply blocks_from_fuel; subst c; lia. }
+      rewrite Hrb. reflexivity.
+    + repeat split; cbn [bs_rg bs_readers]; try assumption. subst c. lia.
+Qed.
+
+End Loop.
+
+(* ------------------------------------------------------------------ C02: the batch theorems *)
+
+Section Final.
+Context {A : Type}.
+Variable garbage : A.
+
+Lemma project_sel (rg : @mrowgroup A) proj :
+  Forall (fun i => (i < length rg)%nat) proj ->
+  project proj (map (ch_rows garbage) rg) [] = map (ch_rows garbage) (sel rg proj).
+Proof.
+  induction proj as [|i proj IH]; intro H; [reflexivity|]. inversion H as [|? ? Hi Hp]; subst.
+  unfold project, sel in *. cbn [map flat_map]. destruct (nth_error rg i) as [ch|] eqn:En.
+  - cbn [app map]. f_equal; [|apply IH; exact Hp].
+    rewrite (nth_indep _ [] (ch_rows garbage ch)) by (rewrite map_length; exact Hi).
+    rewrite map_nth. f_equal. apply nth_error_nth. exact En.
+  - apply nth_error_None in En. lia.
+Qed.
+
+Lemma file_fuel_enough (f : @mfile A) : (cost_rest f <= file_fuel f)%nat.
+Proof.
+  unfold file_fuel. induction f as [|rg f IH]; cbn [cost_rest fold_right]; [lia|].
+  assert (Hrg : (rg_rows rg <= fold_right (fun ch a => (total_rows (ch_pages ch) + a)%nat) O rg)%nat).
+  { unfold rg_rows. destruct rg as [|ch rg]; cbn [fold_right]; lia. }
+  lia.
+Qed.
+
+(** batch_refines: for every batch size, projection and I/O mode the repaired batch reader delivers exactly the
+    blocks of the projected columns, row group after row group, and then END_OF_DATA *)
+Theorem batch_refines_proved m (f : @mfile A) proj bs :
+  proj <> [] -> Forall (rg_ok proj) f -> 0 < bs < 2^31 ->
+  batches garbage true true m f proj bs =
+  Ok (spec_batches (Z.to_nat bs) proj (table_of garbage f), E_END_OF_DATA).
+Proof.
+  intros Hp Hf Hbs. unfold batches.
+  rewrite (loop_exh garbage m f proj bs Hp Hf Hbs f [] batch_init (file_fuel f) eq_refl).
+  - f_equal. f_equal. unfold spec_batches, table_of. rewrite map_map. f_equal.
+    apply map_ext_in. intros rg Hrg. unfold cols_of.
+    assert (Hok : rg_ok proj rg) by (eapply Forall_forall; eassumption). destruct Hok as (_ & Hi & _).
+    rewrite <- (project_sel rg proj Hi). reflexivity.
+  - left. split; reflexivity.
+  - apply file_fuel_enough.
+Qed.
+
+End Final.
+
+(* ------------------------------------------------------------------ consequences, on the specification side *)
+
+Section SpecFacts.
+Context {A : Type}.
+
+Lemma rows_of_block_col_block (rows : list (option A)) : rows_of_block (map is_null rows) (somes rows) = rows.
+Proof.
+  induction rows as [|[v|] rows IH]; cbn [map is_null somes rows_of_block]; [reflexivity| |]; rewrite IH; reflexivity.
+Qed.
+
+(** all columns of a row group have [n] rows *)
+Definition rect (n : nat) (cols : list (list (option A))) : Prop := Forall (fun c => length c = n) cols.
+
+Lemma block_aligned cols n pos c : rect n cols -> (pos + c <= n)%nat -> batch_aligned_prop (block cols pos c).
+Proof.
+  intros Hr Hle. unfold batch_aligned_prop, block. cbn [b_cols b_num_rows]. apply Forall_forall. intros x Hx.
+  apply in_map_iff in Hx. destruct Hx as (rows & <- & Hin). eapply Forall_forall in Hr; [|exact Hin]. cbn beta in Hr.
+  unfold col_block. cbn [bc_num_values bc_bitmap]. rewrite map_length, firstn_length, skipn_length. split; f_equal; lia.
+Qed.
+
+Lemma blocks_from_aligned cols n bs : rect n cols -> forall fuel pos, (pos <= n)%nat ->
+  Forall batch_aligned_prop (blocks_from fuel cols n bs pos).
+Proof.
+  intro Hr. induction fuel as [|fuel IH]; intros pos Hpos; cbn [blocks_from]; [constructor|].
+  destruct (n <=? pos)%nat eqn:E; [constructor|]. constructor.
+  - apply (block_aligned cols n); [exact Hr|lia].
+  - apply IH. lia.
+Qed.
+
+(** column [j] of the blocks from [pos] on, concatenated, is column [j] from row [pos] on *)
+Lemma blocks_from_tile cols n bs j colj : rect n cols -> (0 < bs)%nat -> nth_error cols j = Some colj ->
+  forall fuel pos, (n - pos <= fuel)%nat -> (pos <= n)%nat ->
+  batches_column (blocks_from fuel cols n bs pos) j = skipn pos colj.
+Proof.
+  intros Hr Hbs Hj. assert (Hlen : length colj = n).
+  { eapply Forall_forall in Hr; [exact Hr|]. eapply nth_error_In. exact Hj. }
+  induction fuel as [|fuel IH]; intros pos Hf Hpos.
+  - cbn [blocks_from]. unfold batches_column. cbn [map concat]. rewrite skipn_all2 by lia. reflexivity.
+  - cbn [blocks_from]. destruct (n <=? pos)%nat eqn:E.
+    + unfold batches_column. cbn [map concat]. rewrite skipn_all2 by lia. reflexivity.
+    + unfold batches_column in *. cbn [map concat]. rewrite IH by lia.
+      unfold block at 1. cbn [b_cols]. rewrite nth_error_map, Hj. cbn [option_map].
+      unfold col_block. cbn [bc_bitmap bc_packed]. rewrite rows_of_block_col_block.
+      rewrite <- skipn_skipn'. apply firstn_skipn.
+Qed.
+
+End SpecFacts.
+
+Section Corollaries.
+Context {A : Type}.
+Variable garbage : A.
+
+Lemma batches_column_app (l1 l2 : list (batch A)) j : batches_column (l1 ++ l2) j = batches_column l1 j ++ batches_column l2 j.
+Proof. unfold batches_column. rewrite map_app, concat_app. reflexivity. Qed.
+
+(** every column of every block is a [col_block]: its bitmap is [is_null] of the rows it rebuilds to *)
+Definition is_block_col (c : batch_col A) : Prop := bc_bitmap c = map is_null (rows_of_block (bc_bitmap c) (bc_packed c)).
+
+Lemma col_block_is_block (w : list (option A)) : is_block_col (col_block w).
+Proof. unfold is_block_col, col_block. cbn [bc_bitmap bc_packed]. rewrite rows_of_block_col_block. reflexivity. Qed.
+
+Lemma blocks_from_block_cols cols n bs fuel : forall pos,
+  Forall (fun b : batch A => Forall is_block_col (b_cols b)) (blocks_from fuel cols n bs pos).
+Proof.
+  induction fuel as [|fuel IH]; intro pos; cbn [blocks_from]; [constructor|].
+  destruct (n <=? pos)%nat; [constructor|]. constructor; [|apply IH].
+  unfold block. cbn [b_cols]. apply Forall_forall. intros x Hx. apply in_map_iff in Hx. destruct Hx as (w & <- & _).
+  apply col_block_is_block.
+Qed.
+
+(** the three facts for the blocks of one row group *)
+Lemma rowgroup_blocks_facts bs (cols : list (list (option A))) n :
+  (0 < bs)%nat -> cols <> [] -> rect n cols ->
+  Forall batch_aligned_prop (rowgroup_blocks bs cols) /\
+  Forall (fun b : batch A => Forall is_block_col (b_cols b)) (rowgroup_blocks bs cols) /\
+  (forall j colj, nth_error cols j = Some colj -> batches_column (rowgroup_blocks bs cols) j = colj).
+Proof.
+  intros Hbs Hne Hr. unfold rowgroup_blocks. destruct cols as [|c0 cols']; [congruence|].
+  assert (Hn : length c0 = n) by (inversion Hr; assumption). rewrite Hn.
+  destruct (n =? 0)%nat eqn:E0.
+  - apply Nat.eqb_eq in E0. split; [|split].
+    + constructor; [|constructor]. apply (block_aligned _ n); [exact Hr|lia].
+    + constructor; [|constructor]. unfold block. cbn [b_cols]. apply Forall_forall. intros x Hx.
+      apply in_map_iff in Hx. destruct Hx as (w & <- & _). apply col_block_is_block.
+    + intros j colj Hj. unfold batches_column. cbn [map concat]. unfold block. cbn [b_cols].
+      rewrite nth_error_map, Hj. cbn [option_map]. unfold col_block. cbn [bc_bitmap bc_packed].
+      rewrite rows_of_block_col_block, app_nil_r.
+      assert (Hl : length colj = n). { eapply Forall_forall in Hr; [exact Hr|]. eapply nth_error_In. exact Hj. }
+      destruct colj; [reflexivity|cbn [length] in Hl; lia].
+  - split; [|split].
+    + apply blocks_from_aligned; [exact Hr|lia].
+    + apply blocks_from_block_cols.
+    + intros j colj Hj. rewrite (blocks_from_tile _ n bs j colj Hr Hbs Hj) by lia. reflexivity.
+Qed.
+
+Lemma project_rect proj (rg : @mrowgroup A) :
+  rg_ok proj rg -> proj <> [] ->
+  rect (rg_rows rg) (project proj (map (ch_rows garbage) rg) []) /\ project proj (map (ch_rows garbage) rg) [] <> [].
+Proof.
+  intros Hok Hp. pose proof Hok as (_ & Hi & _). rewrite (project_sel garbage rg proj Hi).
+  destruct (sel_ok proj rg Hok) as [_ Htot]. split.
+  - unfold rect. apply Forall_forall. intros c Hc. apply in_map_iff in Hc. destruct Hc as (ch & <- & Hch).
+    eapply Forall_forall in Htot; [|exact Hch]. cbn beta in Htot. unfold ch_rows. rewrite rows_of_length. exact Htot.
+  - destruct (open_readers_spec garbage Fread rg proj Hi) as (_ & _ & _ & Hlen).
+    intro E. apply map_eq_nil in E. rewrite E in Hlen. cbn [length] in Hlen. destruct proj; [congruence|discriminate].
+Qed.
+
+(** the consequences the property names, for the blocks of a whole valid file *)
+Lemma spec_batches_facts bs proj (f : @mfile A) :
+  (0 < bs)%nat -> proj <> [] -> Forall (rg_ok proj) f ->
+  let bl := spec_batches bs proj (table_of garbage f) in
+  Forall batch_aligned_prop bl /\
+  Forall (fun b : batch A => Forall is_block_col (b_cols b)) bl /\
+  (forall j i, nth_error proj j = Some i -> batches_column bl j = table_column (table_of garbage f) i).
+Proof.
+  intros Hbs Hp Hf. cbn zeta. unfold spec_batches, table_of, table_column.
+  induction Hf as [|rg f Hrg _ IH]; [repeat split; try constructor; intros; reflexivity|].
+  cbn [map concat]. destruct IH as (IH1 & IH2 & IH3).
+  destruct (project_rect proj rg Hrg Hp) as [Hrect Hne].
+  change (map (fun ch : chunk => rows_of garbage (ch_max_def ch) (ch_pages ch)) rg) with (map (ch_rows garbage) rg).
+  destruct (rowgroup_blocks_facts bs _ (rg_rows rg) Hbs Hne Hrect) as (F1 & F2 & F3).
+  split; [|split].
+  - apply Forall_app. split; assumption.
+  - apply Forall_app. split; assumption.
+  - intros j i Hj. rewrite batches_column_app. rewrite (IH3 j i Hj). f_equal.
+    apply F3. unfold project. rewrite nth_error_map, Hj. reflexivity.
+Qed.
+
+Theorem batch_aligned_proved m (f : @mfile A) proj bs :
+  proj <> [] -> Forall (rg_ok proj) f -> 0 < bs < 2^31 ->
+  exists bl, batches garbage true true m f proj bs = Ok (bl, E_END_OF_DATA) /\ Forall batch_aligned_prop bl.
+Proof.
+  intros Hp Hf Hbs. eexists. split; [apply batch_refines_proved; assumption|].
+  apply (spec_batches_facts (Z.to_nat bs) proj f); [lia|assumption|assumption].
+Qed.
+
+Theorem batch_concat_proved m (f : @mfile A) proj bs :
+  proj <> [] -> Forall (rg_ok proj) f -> 0 < bs < 2^31 ->
+  exists bl, batches garbage true true m f proj bs = Ok (bl, E_END_OF_DATA) /\
+    forall j i, nth_error proj j = Some i -> batches_column bl j = table_column (table_of garbage f) i.
+Proof.
+  intros Hp Hf Hbs. eexists. split; [apply batch_refines_proved; assumption|].
+  apply (spec_batches_facts (Z.to_nat bs) proj f); [lia|assumption|assumption].
+Qed.
+
+(** bit i of the null bitmap is set exactly when row i is null - one polarity for every column, batch and mode:
+    the bitmaps of projected column j, batch after batch, are [is_null] of the column's rows *)
+Theorem bitmap_iff_level_proved m (f : @mfile A) proj bs :
+  proj <> [] -> Forall (rg_ok proj) f -> 0 < bs < 2^31 ->
+  exists bl, batches garbage true true m f proj bs = Ok (bl, E_END_OF_DATA) /\
+    forall j i, nth_error proj j = Some i ->
+      concat (map (fun b => match nth_error (b_cols b) j with Some c => bc_bitmap c | None => [] end) bl) =
+      map is_null (table_column (table_of garbage f) i).
+Proof.
+  intros Hp Hf Hbs. eexists. split; [apply batch_refines_proved; assumption|].
+  destruct (spec_batches_facts (Z.to_nat bs) proj f ltac:(lia) Hp Hf) as (_ & Hblk & Hcat).
+  intros j i Hj. rewrite <- (Hcat j i Hj). unfold batches_column. rewrite concat_map, map_map.
+  f_equal. apply map_ext_in. intros b Hb. eapply Forall_forall in Hblk; [|exact Hb]. cbn beta in Hblk.
+  destruct (nth_error (b_cols b) j) as [c|] eqn:Ec; [|reflexivity].
+  eapply Forall_forall in Hblk; [|eapply nth_error_In; exact Ec]. exact Hblk.
+Qed.
+
+(** C03: the batch reader's output does not depend on the I/O mode *)
+Theorem io_mode_irrelevant_batch_proved (f : @mfile A) proj bs m1 m2 :
+  proj <> [] -> Forall (rg_ok proj) f -> 0 < bs < 2^31 ->
+  batches garbage true true m1 f proj bs = batches garbage true true m2 f proj bs.
+Proof. intros Hp Hf Hbs. rewrite !batch_refines_proved by assumption. reflexivity. Qed.
+
+End Corollaries.
+
+(* ------------------------------------------------------------------ examples and the pinned tree *)
+
+(** two columns, 5 rows: a REQUIRED zero-copy eligible column in pages of 2,2,1 rows next to an OPTIONAL one *)
+Definition ex_file : @mfile N :=
+  [[ {| ch_max_def := 0%N; ch_eligible := true;
+        ch_pages := [ {| pg_levels := [0;0]%N; pg_vals := [1;2]%N |}; {| pg_levels := [0;0]%N; pg_vals := [3;4]%N |};
+                      {| pg_levels := [0]%N; pg_vals := [5]%N |} ] |};
+     {| ch_max_def := 1%N; ch_eligible := false;
+        ch_pages := [ {| pg_levels := [1;0;1;0;1]%N; pg_vals := [1;3;5]%N |} ] |} ]].
+
+Example ex_file_ok : Forall (rg_ok [0;1]%nat) ex_file.
+Proof.
+  constructor; [|constructor]. unfold rg_ok, chunk_okb, chunk_ok, page_ok. cbn.
+  repeat split; repeat constructor; cbn; lia.
+Qed.
+
+Example ex_batches_mmap :
+  batches 0%N true true Mmap ex_file [0;1]%nat 3 = Ok (spec_batches 3 [0;1]%nat (table_of 0%N ex_file), E_END_OF_DATA).
+Proof. vm_compute. reflexivity. Qed.
+
+(** The pinned tree (DESIGN F7): in mmap mode the first batch has 2 rows in the zero-copy column and 3 in the other;
+    the batches are not those of the specification and differ from stdio mode. *)
+Theorem batch_aligned_pinned_refuted_proved :
+  exists (f : @mfile N) proj bs,
+    Forall (rg_ok proj) f /\ proj <> [] /\ 0 < bs < 2^31 /\
+    (forall bl c, batches 0%N true false Mmap f proj bs = Ok (bl, c) -> ~ Forall batch_aligned_prop bl) /\
+    batches 0%N true false Mmap f proj bs <> batches 0%N true false Fread f proj bs.
+Proof.
+  exists ex_file, [0;1]%nat, 3. split; [exact ex_file_ok|]. split; [discriminate|]. split; [lia|]. split.
+  - intros bl c H. vm_compute in H. injection H as <- _. intro Hall. inversion Hall as [|? ? H1 _]; subst.
+    unfold batch_aligned_prop in H1. cbn in H1. inversion H1 as [|? ? _ H2]; subst.
+    inversion H2 as [|? ? [H3 _] _]; subst. discriminate H3.
+  - vm_compute. discriminate.
+Qed.
